@@ -33,7 +33,9 @@ TOOLS = ["echo data | tee {f}", "echo data | tee -a {f}", "sort -o {f} in", "sor
 
 
 def targets(work):
-    return ["ok", "okdir/a", "okdir/deep/b", "f", "no", "q", "sub/x", "./ok", "okdir/../f", work + "/ok", work + "/f", '"ok"', "'okdir/a'", "-", "/dev/null", "&1", "../escape", "ok/", "okdir//a", "sub/../ok", "3", "10", "007", "&2", "&-", "1", "-x", "~nobody", ".", "ok.1", "okdir/link/x", "okdir/link/../esc", "okdir/cur.log", "okdir/./link/y"]
+    return ["ok", "okdir/a", "okdir/deep/b", "f", "no", "q", "sub/x", "./ok", "okdir/../f", work + "/ok", work + "/f", '"ok"', "'okdir/a'", "-", "/dev/null", "&1", "../escape", "ok/", "okdir//a", "sub/../ok", "3", "10", "007", "&2", "&-", "1", "-x", "~nobody", ".", "ok.1", "okdir/link/x", "okdir/link/../esc", "okdir/cur.log", "okdir/./link/y",
+            # quoting inside the word: bash removes it before opening the file
+            'okdir/".."/esc_q', "okdir/'..'/esc_s", "okdir/\\.\\./esc_b", 'okdir/..""/esc_e', "'&amp_file'", 'okdir/a"b"', '"okdir"/../esc_d', "ok\\dir/../esc_k", work + '/okdir/".."/esc_abs']
 
 
 def config_for(work, r):
